@@ -1,5 +1,5 @@
 """Which engine parts decide which property."""
-from .engines import deque, codec, stream, pipe, readn, tlv
+from .engines import deque, codec, stream, pipe, readn, tlv, vt
 
 # part name -> (run(res, work, tier, seed), replay(rep, work))
 PARTS = {
@@ -12,6 +12,7 @@ PARTS = {
     "pipe.random": (pipe.run_random, pipe.replay),
     "readn.main": (readn.run_readn, readn.replay),
     "tlv.main": (tlv.run_tlv, tlv.replay),
+    "vt.main": (vt.run_vt, vt.replay),
 }
 
 # property -> parts whose violations (filtered by property id) decide it
@@ -24,6 +25,7 @@ PROPERTY_PARTS = {
     "C09": ["codec.small", "codec.prod", "codec.footprint"],
     "C08": ["stream.main"],
     "C17": ["readn.main"],
+    "C14": ["vt.main"],
     "C11": ["tlv.main"],
     "C12": ["tlv.main"],
     "C03": ["pipe.random"],
